@@ -9,7 +9,7 @@ warnings.filterwarnings('ignore', category=SyntaxWarning)
 
 ID = 'C04'
 LEVEL = 'proof'
-PROPS = ['Props/C04.v', 'Findings/C04.v']
+PROPS = ['Props/C04.v']
 GEN = [('Gen/Priority.v', priority.generate)]
 TRUSTED = [
     'py2coq scanner tools/py2coq/priority.py: the @priority(k) table, the `>=` rule of the decorator and the layout of every post<Node> method of '
@@ -29,7 +29,7 @@ ASSUMPTIONS = [
     'subscripts with slices and index tuples, displays, f-strings with conversions and literal format specs); a negative numeric constant (only produced by '
     'constant folding) is covered by the table theorem and the search but not by the parser theorem (its reparse is a UnaryOp node)',
     'set/dict displays, comprehensions, await/yield, walrus, matrix multiplication, lambda defaults and keyword-only parameters, nested format specs are outside the Coq model '
-    '(the real printer refuses or mishandles several of them; see notes/C04.md)',
+    '(see notes/C04.md)',
     'C04_print_parse is stated with existential fuel: for all sufficiently large fuel the parser returns the tree',
 ]
 RULE = ('exhaustive: every allowed (parent kind, position class, child kind) triple in several contexts (first / middle / last operand); random: seeded deep trees '
@@ -37,7 +37,7 @@ RULE = ('exhaustive: every allowed (parent kind, position class, child kind) tri
         'non-trivial = the tree contains a triple at which the grammar requires parentheses, or an f-string with spec/brace/conversion; distinct = distinct canonical trees')
 
 HEADER = ('From Coq Require Import ZArith List Bool Arith.\nImport ListNotations.\n'
-          'Require Import PonyV.Model.C04Expr PonyV.Model.C04Parse PonyV.Model.C04Known PonyV.Model.C04FStr PonyV.Gen.Priority.\n'
+          'Require Import PonyV.Model.C04Expr PonyV.Model.C04Parse PonyV.Model.C04FStr PonyV.Gen.Priority.\n'
           'Open Scope Z_scope.\n'
           'Definition bools_eqb := list_eqb Bool.eqb.\nDefinition nats_eqb := list_eqb Nat.eqb.\n'
           'Definition fpart_eqb (a b : fpart) : bool := match a, b with FLit x, FLit y => str_eqb x y '
@@ -73,11 +73,12 @@ def run_codes(ctx, exprs, chunk=400):
 
 _tbl = {}
 
-# the rule of the unchanged code; used ONLY to label failing inputs when the scanner refuses the current source (the oracle itself never uses it)
-BASELINE_TABLE = {'cmp': '>=',
+# the rule of the code as of 18f54e0; used ONLY to label failing inputs when the scanner refuses the current source (the oracle itself never uses it)
+BASELINE_TABLE = {'bare_formatted_is_operand': False,
+ 'cmp': '>=',
  'default': 0,
- 'escape': False,
- 'keep_spec': False,
+ 'escape': True,
+ 'keep_spec': True,
  'kind_ok': {'Add': True,
              'And': True,
              'Attribute': True,
@@ -92,7 +93,7 @@ BASELINE_TABLE = {'cmp': '>=',
              'Formatted': True,
              'IdxTuple': True,
              'IfExp': True,
-             'Invert': False,
+             'Invert': True,
              'Joined': True,
              'Keyword': True,
              'LShift': True,
@@ -127,29 +128,32 @@ BASELINE_TABLE = {'cmp': '>=',
          'FloorDiv': 5,
          'Formatted': 0,
          'IdxTuple': 1,
-         'IfExp': 0,
+         'IfExp': 15,
          'Invert': 4,
          'Joined': 0,
          'Keyword': 0,
          'LShift': 7,
-         'Lambda': 0,
+         'Lambda': 16,
          'List': 1,
          'Mod': 5,
          'Mult': 5,
          'Name': 1,
-         'NegConst': 1,
+         'NegConst': 4,
          'Not': 12,
          'Or': 14,
          'Pow': 3,
          'RShift': 7,
          'Slice': 0,
-         'StarArg': 0,
-         'StarElt': 0,
+         'StarArg': 11,
+         'StarElt': 11,
          'Sub': 6,
          'Subscript': 2,
          'Tuple': 1,
          'UAdd': 4,
          'USub': 4},
+ 'receiver': {'Attribute': True, 'Call': True, 'Subscript': True},
+ 'receiver_threshold': 2,
+ 'short_idx': True,
  'threshold': {'Add': 6,
                'And': 13,
                'Attribute': None,
@@ -163,12 +167,12 @@ BASELINE_TABLE = {'cmp': '>=',
                'FloorDiv': 5,
                'Formatted': None,
                'IdxTuple': None,
-               'IfExp': None,
+               'IfExp': 15,
                'Invert': 4,
                'Joined': None,
                'Keyword': None,
                'LShift': 7,
-               'Lambda': None,
+               'Lambda': 16,
                'List': None,
                'Mod': 5,
                'Mult': 5,
@@ -179,8 +183,8 @@ BASELINE_TABLE = {'cmp': '>=',
                'Pow': 3,
                'RShift': 7,
                'Slice': None,
-               'StarArg': None,
-               'StarElt': None,
+               'StarArg': 11,
+               'StarElt': 11,
                'Sub': 6,
                'Subscript': None,
                'Tuple': None,
@@ -208,18 +212,6 @@ def triple_key(p, i, c):
     return 'paren-missing:%s.%d<-%s' % (p, i, c)
 
 
-def known_bad_mirror(p, i, c, pony_unchanged=None):
-    """mirror of Coq known_bad (Model/C04Known.v), written independently; compared entry by entry inside Coq"""
-    below = G.expr_kind(c) and G.PREC[c] < 13
-    if p in ('Attribute', 'Call', 'Subscript') and i == 0: return below
-    operand_pos = (p in G.BOOL + ['Not', 'Compare', 'USub', 'UAdd', 'Invert', 'StarElt'] and i == 0) or (p in G.BINARY and i in (0, 1)) \
-        or (p == 'IfExp' and i in (0, 1))
-    if c in ('IfExp', 'Lambda'): return operand_pos
-    if (p, i, c) == ('Pow', 0, 'NegConst'): return True
-    if p == 'StarElt' and i == 0 and c in ('Or', 'And', 'Not', 'Compare'): return True
-    return False
-
-
 def defects(t):
     """keys of every way this tree leaves the fragment the real printer handles faithfully"""
     tbl, pony = tables()
@@ -232,8 +224,8 @@ def defects(t):
             go(c)
         if k == 'Formatted' and d[1] is not None and not tbl['keep_spec']: out.add('fstring-format-spec-dropped')
         if k == 'Joined' and any('{' in x or '}' in x for x in d) and not tbl['escape']: out.add('fstring-literal-brace-not-escaped')
-        if k == 'IdxTuple' and len(cs) == 1: out.add('subscript-tuple-of-one-loses-comma')
-        if k == 'IdxTuple' and len(cs) == 0: out.add('subscript-empty-tuple-syntax-error')
+        if k == 'IdxTuple' and len(cs) == 1 and not tbl.get('short_idx'): out.add('subscript-tuple-of-one-loses-comma')
+        if k == 'IdxTuple' and len(cs) == 0 and not tbl.get('short_idx'): out.add('subscript-empty-tuple-syntax-error')
         if not tbl['kind_ok'].get(k, True): out.add('%s-operator-attribute-error' % k.lower())
     go(t)
     return out
@@ -296,14 +288,15 @@ def table_cases():
     b = lambda x: 'true' if x else 'false'
     for p in G.KINDS:
         triples = [(i, c) for i in range(3) for c in G.KINDS]
-        for name, fn in (('ref_needs', G.ref_needs), ('allowed', G.allowed), ('pony_needs', pony), ('known_bad', known_bad_mirror)):
+        for name, fn in (('ref_needs', G.ref_needs), ('allowed', G.allowed), ('pony_needs', pony)):
             exprs.append('bools_eqb [%s] [%s]' % ('; '.join('%s K%s %d K%s' % (name, p, i, c) for i, c in triples), '; '.join(b(fn(p, i, c)) for i, c in triples)))
             meta.append(('table:%s' % name, p, None))
         exprs.append('nats_eqb [prec K%s; npos K%s; req K%s 0; req K%s 1; req K%s 2; pos_of K%s 0; pos_of K%s 1; pos_of K%s 2; pos_of K%s 5]%%nat [%s]%%nat' % (
             (p,) * 9 + ('; '.join(str(x) for x in [G.PREC[p], G.npos(p)] + [G.req(p, i) for i in range(3)]
                                   + [G.pos_of(p, 0), G.pos_of(p, 1), G.pos_of(p, 2), G.pos_of(p, 5)]),)))
         meta.append(('table:levels', p, None))
-    exprs.append('bools_eqb [pony_keep_spec; pony_escape_braces] [%s; %s]' % (b(tbl['keep_spec']), b(tbl['escape']))); meta.append(('table:flags', None, None))
+    exprs.append('bools_eqb [pony_keep_spec; pony_escape_braces; pony_short_idx; pony_bare_formatted_is_operand] [%s; %s; %s; %s]' % (
+        b(tbl['keep_spec']), b(tbl['escape']), b(tbl['short_idx']), b(tbl['bare_formatted_is_operand']))); meta.append(('table:flags', None, None))
     exprs.append('bools_eqb [%s] [%s]' % ('; '.join('pony_kind_ok K%s' % k for k in G.KINDS), '; '.join(b(tbl['kind_ok'][k]) for k in G.KINDS)))
     meta.append(('table:kind_ok', None, None))
     return exprs, meta
@@ -321,10 +314,11 @@ def corr_trees(ctx):
             for c in G.KINDS:
                 if not G.allowed(p, i, c): continue
                 child = G.minimal(c)
+                if c == 'Const' and i == 0 and p in ('Attribute', 'Call', 'Subscript'): child = ('Const', "'s'", [])     # not an integer literal (lexical)
                 for t in G.variants_for(p, i, child):
                     if G.wf(t, parse_model=False): add(t, 'triple')
     n = ctx.scale(500, 6000)
-    g = G.Gen(ctx.rng, negconst=True, invert=tbl['kind_ok']['Invert'], short_idx=False, braces=True, specs=True)
+    g = G.Gen(ctx.rng, negconst=True, invert=tbl['kind_ok']['Invert'], short_idx=tbl['short_idx'], braces=True, specs=True)
     for _ in range(n):
         t = g.expr(ctx.rng.choice([1, 2, 2, 3, 3, 4, 5]))
         if G.wf(t, parse_model=False): add(t, 'random')
@@ -383,12 +377,12 @@ def correspondence(ctx):
             disagreements.append({'what': 'real ast2src raised on a tree of a printable kind', 'input': t, 'impl': '%s: %s' % (type(e).__name__, e)})
             continue
         dist['tieB_text'] += 1; ncases += 1
-        mirror = G.render(G.print_tokens(t, pony, keep_spec=tbl['keep_spec']), tbl['escape'])
+        mirror = G.render(G.print_tokens(t, pony, keep_spec=tbl['keep_spec'], short_idx=tbl['short_idx']), tbl['escape'])
         if mirror != real:
             disagreements.append({'what': 'Python mirror of the printer differs from the real ast2src', 'input': t, 'impl': real, 'model': mirror})
         if len(samples) < 4 and origin == 'random' and G.depth(t) >= 3: samples.append({'tree': t, 'ast2src': real})
         has_neg = G.has_kind(t, {'NegConst'})
-        short_idx = _has_short_idx(t)
+        short_idx = _has_short_idx(t) and not tbl['short_idx']      # only a code that prints x[a,] as x[a] leaves the model's fragment here
         # the model parser reads the real output the way CPython does (also where the output is wrong)
         back = cpy_parse(real)
         if back is None or G.dump_norm(back) != want_dump: dist['real_printer_wrong_text'] += 1
@@ -408,7 +402,7 @@ def correspondence(ctx):
         reft = fullt = wfx = None
         selfparse = False
         if short_idx:
-            wfx = False; dist['wf_mirror'] += 1; ncases += 1
+            dist['skipped_short_index'] = dist.get('skipped_short_index', 0) + 1
         else:
             # reference printer: CPython reads its text back as the tree; so it does with redundant parentheses
             reft = G.render(G.print_tokens(t, G.ref_needs), True)
@@ -689,16 +683,18 @@ def replay(ctx, data):
 
 LEVEL_TEXT = ('Machine-checked proof (Coq 8.16.1), structural induction over expression trees of unbounded depth: for EVERY parenthesisation style that parenthesises at '
               'least where Python\'s grammar levels require (ref_needs, derived from the level tables prec/req) and never parenthesises an item, a model of Python\'s '
-              'expression grammar (precedence-climbing parser over tokens, driven by the same tables) reads the printed tokens back as exactly the tree (C04_print_parse); '
-              'instantiated to the style of PythonTranslator, whose @priority table and `>=` rule are re-scanned from /repo on every run: every well-formed tree that avoids '
-              'an explicit list of 139 (parent, position, child) triples, format specs and ~ is read back as itself (C04_ast2src_except_known); the finite table theorem '
-              'C04_table_except_known (vm_compute over the kind enumeration) and C04_table_refuted show the list is exact. f-string bodies at character level: '
-              'parse_f (print_f v) = v with literal braces, conversions and specs (C04_fstring). Refuted witnesses for 12 defect classes of the unchanged code. '
+              'expression grammar (precedence-climbing parser over tokens, driven by the same tables) reads the printed tokens back as exactly the tree (C04_print_parse, '
+              'C04_print_parse_unique); instantiated to the style of PythonTranslator, whose @priority table, `>=` rule, receiver_src helper and f-string / index-tuple layouts '
+              'are re-scanned from /repo on every run: EVERY well-formed tree is read back as itself (C04_ast2src, no exception list since the repairs 2e38fbd / 18f54e0); the '
+              'finite table theorem C04_table (vm_compute over the kind enumeration) has no exceptions either. f-string bodies at character level: parse_f (print_f v) = v with '
+              'literal braces, conversions and specs, for the faithful printer and for the code\'s own flags (C04_fstring, C04_fstring_ast2src). '
               'The printer model equals the real ast2src text on every generated tree; the grammar model and ref_needs are validated against CPython ast.parse on every run; '
               'search: eval(compile(tree)) vs eval(compile(ast2src(tree))) over recording values, and external expressions of real queries on SQLite (bound parameter value).')
 LEVEL_NOTE = ('Trusted: Coq kernel + vm_compute; the source scanner; the hand-written grammar model (levels + parser), validated against CPython but not derived from it; '
-              'tokens as the unit (lexing outside the model); the theorem is about AST identity of the reparse, which implies equal meaning; PreTranslator external marking and '
-              'extract_vars evaluation in the caller frame are covered by the end-to-end correspondence only (no Coq model). C04_print_parse has existential fuel.')
+              'tokens as the unit (lexing outside the model: integer-literal receivers, quote nesting in f-strings); wf excludes folded negative constants (their reparse is a '
+              'UnaryOp node; covered by the table theorem, the text tie and the search); the theorem is about AST identity of the reparse, which implies equal meaning; '
+              'PreTranslator external marking and extract_vars evaluation in the caller frame are covered by the end-to-end correspondence only (no Coq model). '
+              'C04_print_parse has existential fuel, C04_print_parse_unique shows no fuel gives another answer.')
 TECHNIQUE = ('Coq proof by structural induction on rose trees (round trip printer -> precedence-climbing parser, generic in the parenthesisation table); finite table theorems by '
              'vm_compute + forallb_forall; table regenerated from source (py2coq scanner); vm_compute text correspondence with ast2src; CPython validation of the reference grammar; '
              'differential search with recording values and on SQLite')
